@@ -187,7 +187,7 @@ for _d in (0, 1):
     _n = "df18" if _d else "df17"
     _b = "true" if _d else "false"
     for _ts in ("false", "true"):
-        for _lv, _ln in ((3, "pub"), (7, "inv"), (15, "trk")):
+        for _lv, _ln in ((3, "pub"), (7, "inv")):
             add("trk_pos_%s_track%s_%s" % (_n, _ts[0], _ln), "rsadsb_common", T + "obl_action_position", args=_b + ", " + _ts + ", %d" % _lv,
                 props=["C12", "C13", "C14", "C01"], stubs=["fmt", ENTRY, GP, HV], unwind=6,
                 features=("alloc",), domain="fully symbolic record (track %s) x symbolic position report x receiver x range (non-NaN) x arbitrary pairing / distance results; clause groups mask %d" % ("empty" if _ts == "true" else "absent", _lv),
